@@ -485,6 +485,10 @@ def check_case(drv, schema, out, stats):
     # parsed tree (before de-duplication renaming) is in normal form.  nfGood must imply nf (that is the theorem, evaluated).
     nf_good = bool(rep.get("nf_good"))
     stats["source-nfGood-" + str(nf_good)] = stats.get("source-nfGood-" + str(nf_good), 0) + 1
+    if nf_good and rep.get("good_src"):
+        # the three hypotheses of C06_meaning_preserved: Good and nfGood on the source, Good on the normal-form document
+        key = "meaning-preserved-hypotheses-" + ("hold" if rep.get("good_nf") else "source-ok-but-normal-form-not-Good")
+        stats[key] = stats.get(key, 0) + 1
     if nf_good and not rep.get("nf"):
         out.disagreements.append({"what": "model: nfGood schema whose parse is not in normal form (contradicts parse_NF)", **case})
     if not nf_good and rep.get("nf"):
